@@ -14,7 +14,7 @@ from typing import Any, Dict, List, Tuple
 
 from . import core
 
-UNIT_SETS = ["logic", "calls", "select", "lits", "strs"]
+UNIT_SETS = ["logic", "calls", "select", "lits", "strs", "singular"]
 
 
 def _one(us: str, max_units: int, export_upto: int, name: str, workers: int):
